@@ -202,15 +202,40 @@ theorem SE.finish {p : ProxyS} {e : ESock} (h : SE p.sw e) (m : MuxL) (se : Bool
   · split <;> exact h.nowrite se
   · exact h
 
+theorem SE.preSelect {p : ProxyS} {e : ESock} (h : SE p.sw e) (m : MuxL) : SE (p.preSelectFlags m).1.sw e := by
+  unfold ProxyS.preSelectFlags
+  by_cases hf : p.sockFirst = true
+  · simp only [hf, ↓reduceIte]
+    generalize (if p.sw.shutW = true then p.mw.noread m else (p.mw, m)) = x
+    by_cases hx : x.1.shutW = true
+    · rw [if_pos hx]; exact h.noread
+    · rw [if_neg hx]; exact h
+  · simp only [hf, Bool.false_eq_true, ↓reduceIte]
+    by_cases hx : p.mw.shutW = true
+    · rw [if_pos hx]; exact h.noread
+    · rw [if_neg hx]; exact h
+
+/-- The flag propagation only sets `shut_read` flags (and queues STOP_SENDING). -/
+theorem preSelect_fields (p : ProxyS) (m : MuxL) :
+    (p.preSelectFlags m).1.sw.exc = p.sw.exc ∧ (p.preSelectFlags m).1.sw.shutW = p.sw.shutW ∧
+    (p.preSelectFlags m).1.sw.buf = p.sw.buf ∧ (p.preSelectFlags m).1.sw.connecting = p.sw.connecting ∧
+    (p.preSelectFlags m).1.mw.buf = p.mw.buf ∧ (p.preSelectFlags m).1.mw.shutW = p.mw.shutW ∧
+    (p.preSelectFlags m).1.sockFirst = p.sockFirst := by
+  obtain ⟨⟨sb, sr, sw, sc, sx⟩, ⟨wc, wb, wr, ww⟩, pok, sf⟩ := p
+  cases sf <;> cases sw <;> cases ww <;> cases wr <;>
+    simp [ProxyS.preSelectFlags, MuxW.noread, SockW.noread]
+
 theorem SE.cleanup {p : ProxyS} {e : ESock} (h : SE p.sw e) (m : MuxL) (se : Bool) :
     SE (p.cleanup m e se).1.sw (p.cleanup m e se).2.2 := by
   unfold ProxyS.cleanup
   by_cases hf : p.sockFirst = true
   · simp only [hf, ↓reduceIte]
     apply SE.finish
+    apply SE.preSelect
     rw [dropMux_sw]; exact h.dropSock
   · simp only [hf, Bool.false_eq_true, ↓reduceIte]
     apply SE.finish
+    apply SE.preSelect
     apply SE.dropSock
     rw [dropMux_sw]; exact h
 
@@ -258,20 +283,6 @@ theorem SE.callback {p : ProxyS} {e : ESock} (h : SE p.sw e) (m : MuxL) (io : Cb
       injection hc with hp _ he
       subst hp; subst he
       exact g4
-
-theorem SE.preSelect {p : ProxyS} {e : ESock} (h : SE p.sw e) (m : MuxL) : SE (p.preSelectFlags m).1.sw e := by
-  unfold ProxyS.preSelectFlags
-  by_cases hf : p.sockFirst = true
-  · simp only [hf, ↓reduceIte]
-    generalize (if p.sw.shutW = true then p.mw.noread m else (p.mw, m)) = x
-    by_cases hx : x.1.shutW = true
-    · rw [if_pos hx]; exact h.noread
-    · rw [if_neg hx]; exact h
-  · simp only [hf, Bool.false_eq_true, ↓reduceIte]
-    by_cases hx : p.mw.shutW = true
-    · rw [if_pos hx]; exact h.noread
-    · rw [if_neg hx]; exact h
-
 
 /-! ### a finished handler stays finished -/
 
@@ -363,14 +374,18 @@ theorem dropSock_okflag (p : ProxyS) : p.dropSock.ok = p.ok := by
 theorem dropMux_okflag (p : ProxyS) (m : MuxL) : (p.dropMux m).1.ok = p.ok := by
   unfold ProxyS.dropMux; split <;> rfl
 
+theorem preSelect_okflag (p : ProxyS) (m : MuxL) : (p.preSelectFlags m).1.ok = p.ok := by
+  unfold ProxyS.preSelectFlags
+  split <;> rfl
+
 theorem cleanup_dead (p : ProxyS) (m : MuxL) (e : ESock) (se : Bool) (hok : p.ok = true)
     (h : (p.cleanup m e se).1.ok = false) : Dead (p.cleanup m e se).1 := by
   unfold ProxyS.cleanup at h ⊢
   by_cases hf : p.sockFirst = true
   · simp only [hf, ↓reduceIte] at h ⊢
-    exact finish_dead _ _ e se (by rw [dropMux_okflag, dropSock_okflag]; exact hok) h
+    exact finish_dead _ _ e se (by rw [preSelect_okflag, dropMux_okflag, dropSock_okflag]; exact hok) h
   · simp only [hf, Bool.false_eq_true, ↓reduceIte] at h ⊢
-    exact finish_dead _ _ e se (by rw [dropSock_okflag, dropMux_okflag]; exact hok) h
+    exact finish_dead _ _ e se (by rw [preSelect_okflag, dropSock_okflag, dropMux_okflag]; exact hok) h
 
 /-- The `ok` flag of the handler after a callback is the one its final clean-up computed from a
 handler whose `ok` was the old one. -/
@@ -420,10 +435,6 @@ theorem deadOK_callback (p : ProxyS) (m : MuxL) (e : ESock) (io : CbIo) (p' : Pr
     obtain ⟨q, m1, e1, hq, hp'⟩ := callback_cleanup p m e io p' m' e' h
     rw [hp'] at hok' ⊢
     exact cleanup_dead q m1 e1 io.shutErr (by rw [hq]; exact hok) hok'
-
-theorem preSelect_okflag (p : ProxyS) (m : MuxL) : (p.preSelectFlags m).1.ok = p.ok := by
-  unfold ProxyS.preSelectFlags
-  split <;> rfl
 
 /-! ### the per-flow invariant, for every reachable world -/
 
